@@ -58,6 +58,8 @@ int main() {
   { const char *pn[] = {"Ternary_Cond","Logical_Or","Logical_And","Bitwise_Or","Bitwise_Xor","Bitwise_And","Equality","Comparison","Shift","Addition","Multiplication","Prefix"};
     Operator_Precedence pv[] = {Operator_Precedence::Ternary_Cond,Operator_Precedence::Logical_Or,Operator_Precedence::Logical_And,Operator_Precedence::Bitwise_Or,Operator_Precedence::Bitwise_Xor,Operator_Precedence::Bitwise_And,Operator_Precedence::Equality,Operator_Precedence::Comparison,Operator_Precedence::Shift,Operator_Precedence::Addition,Operator_Precedence::Multiplication,Operator_Precedence::Prefix};
     for (int i = 0; i < 12; i++) printf("#define PREC_%s %d\n", pn[i], static_cast<int>(pv[i])); }
+  SZ("ChaiScript_Basic", ChaiScript_Basic) OFF("CB_mutex", ChaiScript_Basic, m_mutex) OFF("CB_use_mutex", ChaiScript_Basic, m_use_mutex) OFF("CB_used_files", ChaiScript_Basic, m_used_files) OFF("CB_use_paths", ChaiScript_Basic, m_use_paths)
+  OFF("FNF_filename", exception::file_not_found_error, filename) SZ("FNF", exception::file_not_found_error)
   SZ("File_Position", File_Position) SZ("Parse_Location", Parse_Location)
   SZ("std_string", std::string) SZ("std_vector", std::vector<int>) SZ("std_shared_ptr", std::shared_ptr<int>)
   static_assert(sizeof(std::string) == 32 && sizeof(std::vector<int>) == 24 && sizeof(std::shared_ptr<int>) == 16, "libstdc++ layouts the C models rely on");
